@@ -430,6 +430,14 @@ func rootFresh(v ssa.Value, depth int) bool {
 		return true
 	case *ssa.MakeSlice, *ssa.MakeMap:
 		return true
+	case *ssa.TypeAssert:
+		// pool.Get().(*T): the pool hands out an object nobody else can reach
+		if c, ok := x.X.(*ssa.Call); ok {
+			if f := c.Call.StaticCallee(); f != nil && f.String() == "(*sync.Pool).Get" {
+				return true
+			}
+		}
+		return false
 	case *ssa.FieldAddr:
 		return rootFresh(x.X, depth+1)
 	case *ssa.IndexAddr:
